@@ -24,6 +24,7 @@ type hookTask struct {
 	before    bool
 	after     bool
 	fail      bool
+	badDir    bool // the task's dir is a template that cannot be rendered: the run fails when its commands are compiled
 }
 
 type hookScenario struct {
@@ -72,7 +73,11 @@ func (s hookScenario) line() string {
 	}
 	ts := make([]string, len(s.tasks))
 	for i, t := range s.tasks {
-		ts[i] = fmt.Sprintf("%d%c%s%s%s", t.ctx, t.cond, map[bool]string{true: "b", false: "-"}[t.before], map[bool]string{true: "a", false: "-"}[t.after], map[bool]string{true: "F", false: "o"}[t.fail])
+		bd := ""
+		if t.badDir {
+			bd = "D"
+		}
+		ts[i] = bd + fmt.Sprintf("%d%c%s%s%s", t.ctx, t.cond, map[bool]string{true: "b", false: "-"}[t.before], map[bool]string{true: "a", false: "-"}[t.after], map[bool]string{true: "F", false: "o"}[t.fail])
 	}
 	extra := ""
 	if s.upCmds != nil {
@@ -111,6 +116,9 @@ func (s hookScenario) buildTask(i int, trace string) *task.Task {
 		t.After = []string{hookCmd(trace, fmt.Sprintf("t%d.after", i), false)}
 	}
 	t.Commands = []string{hookCmd(trace, fmt.Sprintf("t%d.cmd", i), ht.fail)}
+	if ht.badDir {
+		t.Dir = "{{.NoSuchVariable}}"
+	}
 	return t
 }
 
@@ -132,6 +140,9 @@ func (s hookScenario) yaml(trace string) string {
 		fmt.Fprintf(&b, "  %s:\n    command: [%q]\n", t.Name, t.Commands[0])
 		if t.Context != "" {
 			fmt.Fprintf(&b, "    context: %s\n", t.Context)
+		}
+		if t.Dir != "" {
+			fmt.Fprintf(&b, "    dir: %q\n", t.Dir)
 		}
 		if t.Condition != "" {
 			fmt.Fprintf(&b, "    condition: %q\n", t.Condition)
@@ -206,7 +217,7 @@ func runHookScenario(s hookScenario) hookObs {
 		obs.trace = readHookTrace(trace)
 		for i, t := range s.tasks {
 			// the CLI reports only the overall status; derive the per-task error from the definition
-			obs.runErr[i] = (t.fail && t.cond != 'f') || (t.ctx >= 0 && s.upFail[t.ctx])
+			obs.runErr[i] = (t.fail && t.cond != 'f') || (t.ctx >= 0 && s.upFail[t.ctx]) || t.badDir
 		}
 		if multi {
 			stopped := false
@@ -266,7 +277,7 @@ func runHookScenario(s hookScenario) hookObs {
 			}
 			// stage status Error was reset to Done by allow_failure; use the ground truth from the definition for hooks-only errors
 			for i, t := range s.tasks {
-				if t.ctx >= 0 && s.upFail[t.ctx] {
+				if (t.ctx >= 0 && s.upFail[t.ctx]) || t.badDir {
 					obs.runErr[i] = true
 				}
 			}
@@ -374,6 +385,14 @@ func hookVerdict(s hookScenario, o hookObs) (string, string) {
 					}
 				}
 			}
+			if s.tasks[i].badDir && !upFail {
+				if ran {
+					return fmt.Sprintf("task %s cannot be compiled (its dir does not render) but ran commands", tn), "c14-uncompilable-ran"
+				}
+				if !o.runErr[i] {
+					return fmt.Sprintf("task %s cannot be compiled but reported no error", tn), "c14-uncompilable-noerror"
+				}
+			}
 			if upFail {
 				if ran {
 					return fmt.Sprintf("up of %s failed but task %s ran commands", cn, tn), "c14-up-failed-ran"
@@ -455,6 +474,16 @@ func genHookScenarios(tier string, rng *rand.Rand) []hookScenario {
 			}
 		}
 	}
+	// a task that fails when its commands are compiled (after the context's before hook has run): the context's
+	// after hook still runs exactly once for it
+	for _, via := range []string{"runner", "sched", "cli"} {
+		for _, par := range []bool{false, true} {
+			out = append(out, hookScenario{upFail: []bool{false}, via: via, par: par,
+				tasks: []hookTask{{ctx: 0, cond: 'n', before: true, after: true}, {ctx: 0, cond: 'n', before: true, after: true, badDir: true}, {ctx: 0, cond: 'n'}}})
+			out = append(out, hookScenario{upFail: []bool{false}, via: via, par: par,
+				tasks: []hookTask{{ctx: 0, cond: 'n', badDir: true}}})
+		}
+	}
 	// every way of naming the targets on the command line, with a failing target and with an unknown name
 	for _, form := range []string{"", "run", "runtask", "runpipeline"} {
 		for _, par := range []bool{false, true} {
@@ -501,6 +530,9 @@ func genHookScenarios(tier string, rng *rand.Rand) []hookScenario {
 		for i := 0; i < nt; i++ {
 			s.tasks = append(s.tasks, hookTask{ctx: rng.Intn(nc+1) - 1, cond: []byte{'n', 'n', 't', 'f'}[rng.Intn(4)],
 				before: rng.Intn(2) == 0, after: rng.Intn(2) == 0, fail: rng.Intn(4) == 0})
+			if last := &s.tasks[len(s.tasks)-1]; last.cond == 'n' && rng.Intn(8) == 0 {
+				last.badDir = true
+			}
 		}
 		out = append(out, s)
 	}
